@@ -1177,7 +1177,60 @@ def r_config_plumbing(repo, rep, R):
                         import copy as _copy
                         kd = {kw.arg: _Ren().visit(_copy.deepcopy(kw.value)) for kw in rets[0].value.keywords}
     if kd is None:
+        # ... or every parsed option that is also a parameter of the callee, under its own name:
+        #     names = inspect.signature(depccg.parsing.run).parameters
+        #     kwargs = {k: v for k, v in vars(args).items() if k in names}
+        # The keys are then the attribute names the command line declares (dest= or the long flag) that are parameters of
+        # run -- nothing else: an option whose attribute is spelt differently from the parameter it stands for is not passed.
+        for n in ast.walk(main):
+            if not (isinstance(n, ast.Assign) and isinstance(n.value, ast.DictComp) and any(isinstance(t, ast.Name) and t.id == 'kwargs' for t in n.targets)):
+                continue
+            dc = n.value
+            g = dc.generators[0] if len(dc.generators) == 1 else None
+            if g is None or not (isinstance(g.target, ast.Tuple) and len(g.target.elts) == 2 and all(isinstance(e_, ast.Name) for e_ in g.target.elts)):
+                continue
+            kn, vn = g.target.elts[0].id, g.target.elts[1].id
+            it = g.iter
+            if not (isinstance(it, ast.Call) and isinstance(it.func, ast.Attribute) and it.func.attr == 'items' and isinstance(it.func.value, ast.Call)
+                    and src(it.func.value.func) == 'vars' and len(it.func.value.args) == 1 and isinstance(it.func.value.args[0], ast.Name)):
+                continue
+            an = it.func.value.args[0].id
+            if not (isinstance(dc.key, ast.Name) and dc.key.id == kn and isinstance(dc.value, ast.Name) and dc.value.id == vn):
+                continue
+            if not (len(g.ifs) == 1 and isinstance(g.ifs[0], ast.Compare) and len(g.ifs[0].ops) == 1 and isinstance(g.ifs[0].ops[0], ast.In)
+                    and isinstance(g.ifs[0].left, ast.Name) and g.ifs[0].left.id == kn):
+                continue
+            dom = g.ifs[0].comparators[0]
+            names = None
+            if isinstance(dom, (ast.Tuple, ast.List, ast.Set)) and all(isinstance(e_, ast.Constant) and isinstance(e_.value, str) for e_ in dom.elts):
+                names = {e_.value for e_ in dom.elts}
+            elif isinstance(dom, ast.Name):
+                binds = [a_ for a_ in ast.walk(main) if isinstance(a_, ast.Assign) and any(isinstance(t, ast.Name) and t.id == dom.id for t in a_.targets)]
+                if len(binds) == 1:
+                    dom = binds[0].value
+            if names is None and src(dom).replace(' ', '') in ('inspect.signature(depccg.parsing.run).parameters', 'inspect.signature(run).parameters',
+                                                                'signature(depccg.parsing.run).parameters', 'signature(run).parameters'):
+                names = set(pparams)
+            if names is None:
+                continue
+            from .cli import cli_options
+            dests = set()
+            for o_ in cli_options(repo)[2]:
+                d_ = o_.const('dest') if 'dest' in o_.kw else None
+                if 'dest' in o_.kw and d_ is None:
+                    raise AnalysisError('depccg/argparse.py: an option with a computed dest')
+                if d_ is None:
+                    long_ = [f for f in o_.flags if f.startswith('--')]
+                    d_ = (long_[0] if long_ else o_.flags[0]).lstrip('-').replace('-', '_')
+                dests.add(d_)
+            kd = {k_: ast.copy_location(ast.Attribute(value=ast.Name(id=an, ctx=ast.Load()), attr=k_, ctx=ast.Load()), n) for k_ in sorted(names & dests)}
+    if kd is None:
         raise AnalysisError('depccg/__main__.py: kwargs = dict(...) not found')
+    # keys added one by one afterwards:  kwargs['processes'] = args.num_processes
+    for n in ast.walk(main):
+        if isinstance(n, ast.Assign) and len(n.targets) == 1 and isinstance(n.targets[0], ast.Subscript) and isinstance(n.targets[0].value, ast.Name) \
+                and n.targets[0].value.id == 'kwargs' and isinstance(n.targets[0].slice, ast.Constant) and isinstance(n.targets[0].slice.value, str):
+            kd[n.targets[0].slice.value] = n.value
     w3 = 'depccg/__main__.py:%s main' % main.lineno
     expect = {'unary_penalty': 'args.unary_penalty', 'nbest': 'args.nbest', 'pruning_size': 'args.pruning_size',
               'beta': 'args.beta', 'use_beta': 'not args.disable_beta', 'max_length': 'args.max_length',
@@ -1194,7 +1247,8 @@ def r_config_plumbing(repo, rep, R):
                       'parameter %r is set from %s, with --disable-beta declared as %s: the switch does not turn the filter off (or on by default)' % (k, got, sem))
             continue
         rep.check(got == e, R, w3, 'main:kwargs:' + k, 'CLI option reaches parameter %r as %s' % (k, e),
-                  'parameter %r is set from %s' % (k, got))
+                  ('parameter %r is set from %s' % (k, got)) if got is not None else
+                  'parameter %r is not passed by the command line at all: depccg.parsing.run falls back to its own default, whatever the option says' % k)
     extra = set(kd) - pparams
     rep.check(not extra, R, w3, 'main:kwargs:known', 'every keyword passed by the CLI is a parameter of depccg.parsing.run',
               'CLI passes unknown keywords %s' % sorted(extra))
